@@ -822,4 +822,90 @@ theorem tlMerge_either_front_reachable (x y : α) (r1 r2 : List α) (force : Boo
       exact ⟨_, rfl⟩
 
 
+
+/-! ### TopLevelFoldHook: every non-empty subset is selected (in some order) -/
+
+theorem aux_split_single {x : α} {s r : List α} (h : Split [x] s r) : (s = [x] ∧ r = []) ∨ (s = [] ∧ r = [x]) := by
+  cases h with
+  | left h' => cases h'; exact Or.inl ⟨rfl, rfl⟩
+  | right h' => cases h'; exact Or.inr ⟨rfl, rfl⟩
+
+theorem aux_foldSelect_complete : ∀ (q s0 r0 sel rem : List α) (log : List Call), Split q sel rem →
+    (q ≠ [] → s0 ++ sel ≠ []) →
+    ∃ tape d', foldSelect q s0 r0 ⟨tape, log⟩ = (s0 ++ sel, r0 ++ rem, d') := by
+  intro q
+  induction q with
+  | nil =>
+    intro s0 r0 sel rem log hs _
+    obtain ⟨rfl, rfl⟩ := aux_split_of_nil hs
+    exact ⟨[], ⟨[], log⟩, by simp [foldSelect]⟩
+  | cons x r ih =>
+    intro s0 r0 sel rem log hs hne
+    cases r with
+    | nil =>
+      rcases aux_split_single hs with ⟨rfl, rfl⟩ | ⟨rfl, rfl⟩
+      · by_cases he : s0.isEmpty = true
+        · exact ⟨[], ⟨[], log⟩, by simp [foldSelect, he]⟩
+        · refine ⟨[1], ?_⟩
+          have hb := aux_bool_hit true log []
+          simp only [↓reduceIte] at hb
+          simp only [foldSelect, he, Bool.false_eq_true, ↓reduceIte, hb, List.append_nil]
+          exact ⟨_, rfl⟩
+      · have he : s0.isEmpty = false := by
+          have := hne (by simp)
+          cases s0 with
+          | nil => simp at this
+          | cons _ _ => simp
+        refine ⟨[0], ?_⟩
+        have hb := aux_bool_hit false log []
+        simp only [Bool.false_eq_true, ↓reduceIte] at hb
+        simp only [foldSelect, he, Bool.false_eq_true, ↓reduceIte, hb, List.append_nil]
+        exact ⟨_, rfl⟩
+    | cons y r' =>
+      cases hs with
+      | @left _ _ a b hs' =>
+        obtain ⟨tape, d', ht⟩ := ih (s0 ++ [x]) r0 a rem (.b true :: log) hs' (by simp)
+        refine ⟨1 :: tape, d', ?_⟩
+        have hb := aux_bool_hit true log tape
+        simp only [↓reduceIte] at hb
+        simp only [foldSelect, hb, ↓reduceIte]
+        simpa using ht
+      | @right _ _ a b hs' =>
+        obtain ⟨tape, d', ht⟩ := ih s0 (r0 ++ [x]) sel b (.b false :: log) hs' (by
+          intro _; exact hne (by simp))
+        refine ⟨0 :: tape, d', ?_⟩
+        have hb := aux_bool_hit false log tape
+        simp only [Bool.false_eq_true, ↓reduceIte] at hb
+        simp only [foldSelect, hb, Bool.false_eq_true, ↓reduceIte]
+        simpa using ht
+
+theorem aux_fisherYates_some : ∀ (n : Nat) (l : List α) (d : Drv), ∃ l' d', fisherYates n l d = some (l', d') := by
+  intro n
+  induction n with
+  | zero => intro l d; exact ⟨l, d, rfl⟩
+  | succ i ih =>
+    intro l d
+    unfold fisherYates
+    have : ∃ j d1, d.nat 0 (i + 1) = some (j, d1) := by
+      unfold Drv.nat; simp
+    obtain ⟨j, d1, hj⟩ := this
+    simp only [hj]
+    exact ih _ _
+
+/-- every non-empty sub-multiset of the buffered fold inputs is released (in some order) by some
+tape, the rest staying buffered in queue order -/
+theorem tlFold_every_selection_reachable [DecidableEq α] (q sel rem : List α) (force : Bool) (log : List Call)
+    (hs : Split q sel rem) (hne : sel ≠ []) :
+    ∃ tape r d', tlFoldAuto q ⟨tape, log⟩ force = some (r, rem, true, d') ∧ r.Perm sel := by
+  have hq : q.isEmpty = false := by
+    cases q with
+    | nil => exact absurd (aux_split_of_nil hs).1 hne
+    | cons _ _ => simp
+  obtain ⟨tape, d1, ht⟩ := aux_foldSelect_complete q [] [] sel rem log hs (by simpa using fun _ => hne)
+  simp only [List.nil_append] at ht
+  obtain ⟨r, d2, hfy⟩ := aux_fisherYates_some (sel.length - 1) sel d1
+  refine ⟨tape, r, d2, ?_, aux_fisherYates_perm _ _ _ hfy⟩
+  simp [tlFoldAuto, hq, ht, hfy]
+
+
 end HvSim
